@@ -188,6 +188,8 @@ def own_masks(pit, prog):
 
 
 def flat_mult(model, prog):
+    if prog['head']['kind'] == 'flatadd':
+        return model.head['fc'].in_features // 3
     if prog['head']['kind'] != 'flatlin':
         return 1
     return model.head['fc'].in_features // model.c_final
